@@ -347,18 +347,33 @@ def uses_mode(t, mode):
     return False
 
 
+def unshare(t):
+    while t[0] == "share":
+        t = t[2]
+    return t
+
+
+def bad_tail(t):
+    """the tail of a list cell is an atom other than [] (also through a shared subterm, and when
+    an empty list-like node stands for its own tail)"""
+    t = unshare(t)
+    while t[0] in ("lst", "chs", "seg") and not (t[1] if t[0] != "seg" else "".join(t[1])):
+        t = unshare(t[2])
+    return t[0] == "atom" and t != NIL
+
+
 def printable(t):
     """False if printing the term back through the library API would hit the (unrelated) panic
     on partial strings whose tail is an atom other than []."""
     k = t[0]
     if k == "cmp":
-        if t[1] == "." and len(t[2]) == 2 and t[2][1][0] == "atom" and t[2][1] != NIL:
+        if t[1] == "." and len(t[2]) == 2 and bad_tail(t[2][1]):
             return False          # '.'(H, atom) in functional notation is the same list cell
         return all(printable(a) for a in t[2])
     if k == "lst":
-        return all(printable(a) for a in t[1]) and printable(t[2]) and not (t[2][0] == "atom" and t[2] != NIL)
+        return all(printable(a) for a in t[1]) and printable(t[2]) and not (t[1] and bad_tail(t[2]))
     if k in ("chs", "seg"):
-        return printable(t[2]) and not (t[2][0] == "atom" and t[2] != NIL)
+        return printable(t[2]) and not bad_tail(t[2])
     if k == "share":
         return printable(t[2])
     return True
